@@ -9,6 +9,8 @@
 //	w1 w25 weight2 forced; r1 r25 recursive forced
 //	srv    pkg/server.Check with the experimental flag weighted_graph_check (own planner, fallback to v1),
 //	       with the warnings it logs: "falling back" and the v2breaking reasons
+//	cfb    commands.CheckQueryV2 with a fallback Checker (the default engine), as BatchCheck wires it; cfbn = fallbacks
+//	       taken; term = IsV2CheckTerminalError on the raw and on the server-mapped error of d1
 //	cr cx ce   the detector predicates called directly (CheckReason, CheckExclusionReason, CheckReasonFromV2Error)
 //	graph  the weighted graph the engine used, dumped from the real library (see graph.go)
 package main
@@ -31,6 +33,7 @@ import (
 
 	"github.com/openfga/openfga/internal/check"
 	"github.com/openfga/openfga/internal/condition"
+	"github.com/openfga/openfga/internal/graph"
 	"github.com/openfga/openfga/internal/modelgraph"
 	"github.com/openfga/openfga/internal/planner"
 	"github.com/openfga/openfga/internal/validation"
@@ -299,6 +302,48 @@ func runV2(mg *modelgraph.AuthorizationModelGraph, ds storage.OpenFGADatastore, 
 	return v2class(res, err), err
 }
 
+// runV2Fallback runs CheckQueryV2 (default strategy, concurrency 1) with the default engine as fallback Checker and
+// returns the class of the answer and how often the fallback was taken.
+func runV2Fallback(ts *typesystem.TypeSystem, mg *modelgraph.AuthorizationModelGraph, ds storage.OpenFGADatastore, depth int, rq fga.Req, ctxT []fga.Tuple) (string, int) {
+	resolver, closer, err := graph.NewOrderedCheckResolvers(
+		graph.WithLocalCheckerOpts(
+			graph.WithResolveNodeBreadthLimit(1),
+			graph.WithMaxResolutionDepth(uint32(depth)),
+			graph.WithPlanner(&fgarun.ForcedPlanner{Want: "default"}),
+			graph.WithOptimizations(true),
+		),
+	).Build()
+	if err != nil {
+		return "Esetup", 0
+	}
+	defer closer()
+	v1cmd := commands.NewCheckCommand(ds, resolver, ts)
+	q := commands.NewCheckQuery(
+		commands.WithCheckQueryV2Datastore(ds),
+		commands.WithCheckQueryV2Model(mg),
+		commands.WithCheckQueryV2Planner(&forcedPlanner{want: "default", offered: map[string]bool{}}),
+		commands.WithCheckQueryV2ConcurrencyLimit(1),
+		commands.WithCheckQueryV2UpstreamTimeout(3*time.Second),
+		commands.WithCheckQueryV2Fallback(v1cmd),
+	)
+	ctx, cancel := context.WithTimeout(context.Background(), 3*time.Second)
+	defer cancel()
+	var ct *openfgav1.ContextualTupleKeys
+	if len(ctxT) > 0 {
+		ct = &openfgav1.ContextualTupleKeys{TupleKeys: fga.Keys(ctxT)}
+	}
+	res, err := q.Execute(ctx, &commands.CheckCommandParams{
+		StoreID:          fgarun.StoreID,
+		TupleKey:         &openfgav1.CheckRequestTupleKey{Object: rq.Obj, Relation: rq.Rel, User: rq.User},
+		ContextualTuples: ct,
+		Context:          fga.CtxStruct(rq.Ctx),
+	})
+	if q.FallbackCount() > 0 {
+		return v1class(fgarun.Canon(res, err)), q.FallbackCount()
+	}
+	return v2class(res, err), 0
+}
+
 // ---- server-level path (flag weighted_graph_check, fallback to v1, breaking-change log) -----------
 
 var (
@@ -482,6 +527,15 @@ func exec(line string, st *hx.Stats) string {
 			r1, r25 = r1+"|"+many("recursive", 1, 2), r25+"|"+many("recursive", 25, 4)
 		}
 		out = append(out, "w1 "+w1, "w25 "+w25, "r1 "+r1, "r25 "+r25)
+		// command level: CheckQueryV2 with a fallback Checker (the default engine, breadth 1)
+		cfb, cfbn := runV2Fallback(ts, mg, ds, depth, rq, ctxT)
+		out = append(out, "cfb "+cfb, fmt.Sprintf("cfbn %d", cfbn))
+		// the classification that decides between returning an error and falling back
+		term := "-"
+		if d1err != nil {
+			term = fmt.Sprintf("%d%d", b2i(commands.IsV2CheckTerminalError(d1err)), b2i(commands.IsV2CheckTerminalError(commands.CheckCommandErrorToServerError(d1err))))
+		}
+		out = append(out, "term "+term)
 		var off []string
 		for k := range offered {
 			off = append(off, k)
